@@ -8,6 +8,7 @@ import ast
 from .base import *
 from ..fnharness import FnCase, run_cases
 from ..engine import Path
+from ..loops import InvLoop
 from .plainops import build_plain, set_cell, get_cell, T0
 from z3 import StringVal, String
 
@@ -403,6 +404,123 @@ def parquet_cases():
     return out
 
 
+readsF = Function('readsF', IntSort(), IntSort(), Trace)      # (mode, j): emissions for the chunks 0..j-1 returned by read()
+
+
+class FileRead(FnCase):
+    """rxsci.io.file.read(file, mode, size): every chunk the file object returns, in order, up to (not including) the first empty one,
+    then completion -- a short non-empty read is NOT the end of the file (io.RawIOBase contract)"""
+
+    def __init__(self, binary, sized):
+        self.binary = binary; self.sized = sized
+        self.name = f"io.file.read[{'binary' if binary else 'text'},{'size=n' if sized else 'whole file'}]/subscription"
+        self.loop_contracts = {('match', lambda fn, node: fn.startswith('rxsci.io.file.read.') and isinstance(node, ast.While)):
+                               InvLoop(self.inv, modifies=('trace', 'locals', 'heap'), lemmas=self.lemmas)}
+
+    def chunk_val(self, k):
+        from ..strmodels import file_chunk_b, file_chunk_s
+        return V.VBytes(file_chunk_b(k)) if self.binary else V.VStr(file_chunk_s(k))
+
+    def chunk_len(self, k):
+        from ..strmodels import file_chunk_b, file_chunk_s
+        return Length(file_chunk_b(k)) if self.binary else Length(file_chunk_s(k))
+
+    def mode(self): return IntVal(1 if self.binary else 0)
+
+    def lemmas(self, L, q, j):
+        k = self.pos(q)
+        m = self.mode()
+        return [readsF(m, IntVal(0)) == Empty(Trace),
+                Implies(k >= 1, readsF(m, k) == Concat(readsF(m, k - 1), Unit(em(OUT, Ev.Item(self.chunk_val(k - 1))))))]
+
+    def pos(self, q):
+        return q.heap[self.file.oid][2]
+
+    def data_cell(self, L):
+        # the local that holds the result of the last read(): by role (assigned from <x>.read(...))
+        for n in ast.walk(L.fr_node if hasattr(L, 'fr_node') else self.fn_node):
+            if isinstance(n, ast.Assign) and isinstance(n.value, ast.Call) and isinstance(n.value.func, ast.Attribute) and n.value.func.attr == 'read' \
+                    and len(n.targets) == 1 and isinstance(n.targets[0], ast.Name):
+                return n.targets[0].id
+        return None
+
+    def inv(self, L, q, j):
+        k = self.pos(q); m = self.mode(); i = Int('ri')
+        nm = self.data_cell(L)
+        cid = L.scope_lookup(nm) if nm else None
+        if cid is None or cid not in q.cells:
+            raise Unsupported('io.file.read: cannot identify the variable holding the last read() result')
+        d = q.cells[cid]
+        dv = self.eng.to_val(q, d)
+        return [('position', k >= 1), ('last_read_is_current_chunk', dv == self.chunk_val(k - 1)),
+                ('emitted_all_chunks_read_before', q.trace == Concat(T0, readsF(m, k - 1))),
+                ('all_emitted_chunks_non_empty', ForAll([i], Implies(And(i >= 0, i < k - 1), self.chunk_len(i) > 0)))]
+
+    def setup(self, eng, p):
+        self.eng = eng
+        w = eng.world
+        f = w.closure_of('rxsci.io.file', 'read')
+        self.file = eng.new_obj(p, 'chunkfile', ('chunkfile', 'b' if self.binary else 's', IntVal(0)))
+        self.fn_node = f.node
+        size = SInt(Int('size')) if self.sized else None
+        (q, obs), = eng.call(p, f, [self.file], {'mode': 'rb' if self.binary else 'r', 'size': size, 'encoding': None, 'open_obj': UserFn('open_obj')})
+        self.observer = Host('observer', chan=OUT, name='observer')
+        q.trace = T0; q.calls = []; q.pc = []
+        self.path = q
+        return obs.subscribe, [self.observer, Host('immediate_scheduler', name='scheduler')], {}
+
+    def requires(self):
+        return ([Int('size') >= 1] if self.sized else []) + [readsF(self.mode(), IntVal(0)) == Empty(Trace)]
+
+    def on_exception(self, q): return BoolVal(False)
+
+    def ensures(self, q, ret):
+        k = self.pos(q); m = self.mode(); i = Int('ri')
+        done = Unit(em(OUT, Ev.Done))
+        if not self.sized:
+            return [('emits_the_whole_content_then_completes', q.trace == Concat(T0, Unit(em(OUT, Ev.Item(self.chunk_val(IntVal(0))))), done)), ('one_read', k == 1)]
+        J = k - 1
+        return [('emits_every_chunk_before_the_first_empty_one_then_completes', q.trace == Concat(T0, readsF(m, J), done),
+                 {'defs': [readsF(m, IntVal(0)) == Empty(Trace)]}),
+                ('stops_at_an_empty_read_only', And(J >= 0, self.chunk_len(J) == 0)),
+                ('no_chunk_skipped', ForAll([i], Implies(And(i >= 0, i < J), self.chunk_len(i) > 0)))]
+
+    def e2e(self):
+        from ..bounded import io as bio
+        return (bio.check_c19({}).get('failures') or [None])[0]
+
+
+class FileWrite(FnCase):
+    """rxsci.io.file.write(file): every item is written exactly once, in the call that delivers it, nothing is emitted before completion"""
+
+    def __init__(self, handler):
+        self.handler = handler; self.name = f'io.file.write/{handler}'
+
+    def setup(self, eng, p):
+        self.eng = eng
+        self.fobj = Host('opaque', name='fileobj')
+        q, hs, obs = build_plain(eng, p, 'rxsci.io.file', 'write', [self.fobj], {'mode': None, 'encoding': None, 'open_obj': UserFn('open_obj')})
+        q.trace = T0; q.calls = []; q.pc = []; self.path = q
+        return hs[self.handler], ([SVal(XV)] if self.handler != 'on_completed' else []), {}
+
+    def on_exception(self, q):
+        return BoolVal(isinstance(q.exc, ExcV) and q.exc.cls == 'LibError')       # a failing write / close of the file object itself
+
+    def ensures(self, q, ret):
+        calls = [c for c in q.calls if c[0].startswith('fileobj.')]
+        if self.handler == 'on_next':
+            return [('item_written_exactly_once', BoolVal(len(calls) == 1 and calls[0][0] == 'fileobj.write') if calls else BoolVal(False)),
+                    ('item_written_unchanged', (calls[0][1][0] == XV) if (len(calls) == 1 and calls[0][1]) else BoolVal(False)),
+                    ('nothing_emitted', q.trace == T0)]
+        if self.handler == 'on_completed':
+            return [('a_file_object_given_by_the_caller_is_not_closed', BoolVal(len(calls) == 0)), ('completes', q.trace == Concat(T0, Unit(em(OUT, Ev.Done))))]
+        return [('a_file_object_given_by_the_caller_is_not_closed', BoolVal(len(calls) == 0)), ('error_forwarded', q.trace == Concat(T0, Unit(em(OUT, Ev.Err(XV)))))]
+
+
+def io_cases():
+    return [FileRead(True, True), FileRead(False, True), FileRead(True, False), FileWrite('on_next'), FileWrite('on_completed'), FileWrite('on_error')]
+
+
 _STATE_E2E = {'compression': 'check_c16', 'codec': 'check_c17', 'json': 'check_c19', 'csv': 'check_c18', 'parquet': 'check_c20', 'framing': 'check_c15', 'io': 'check_c19'}
 
 
@@ -435,10 +553,10 @@ class SubscriptionState(FnCase):
 
 def unit_wrappers(opts):
     which = opts.get('which', 'all')
-    groups = {'compression': compression_cases, 'codec': codec_cases, 'json': json_cases, 'csv': csv_cases, 'parquet': parquet_cases}
+    groups = {'compression': compression_cases, 'codec': codec_cases, 'json': json_cases, 'csv': csv_cases, 'parquet': parquet_cases, 'io': io_cases}
     cases = []
     mods = {'compression': ['rxsci.compression.z', 'rxsci.compression.zstd'], 'codec': ['rxsci.data.codec'], 'json': ['rxsci.container.json', 'rxsci.io.file'],
-            'csv': ['rxsci.container.csv', 'rxsci.io.file'], 'parquet': ['rxsci.container.parquet']}
+            'csv': ['rxsci.container.csv', 'rxsci.io.file'], 'parquet': ['rxsci.container.parquet'], 'io': []}
     for k, f in groups.items():
         if which in ('all', k):
             cases += f()
